@@ -20,7 +20,7 @@ def describe(tier):
                 'for key, token, EDB, result. non-trivial = keyword present.' % n,
         'bounds': 'N<=%d exhaustive over partitions' % n,
         'assumptions': ['a configuration that cannot set up is skipped and counted (C01/C08 own it)'],
-        'must_be_nonzero': ['key-roundtrip', 'token-roundtrip', 'edb-roundtrip', 'result-roundtrip', 'absent', 'patterned-keys'],
+        'must_be_nonzero': ['key-roundtrip', 'token-roundtrip', 'edb-roundtrip', 'result-roundtrip', 'absent', 'patterned-keys', 'separate-config-object'],
     }
 
 
@@ -85,6 +85,14 @@ def run_case(r, seed, name, label, cfg, profile, kwlen, relation, cache=None):
             client2 = L.SSEScheme(copy.deepcopy(cfg_wire))
     except Exception as e:
         bad('config-rebuild-raises', core.exc_site(e), case, 'scheme instantiates from the JSON round trip', core.exc_text(e)); return
+    # the configuration object the server parses wire objects with: its scheme's own, or (every other case) one built separately
+    # from the same JSON, as frontend/server does - equal in content, another object
+    try:
+        server_parse_cfg = server.config if (sum(profile) + len(profile)) % 2 == 0 else L.SSEConfig(copy.deepcopy(cfg_wire))
+    except Exception as e:
+        bad('config-rebuild-raises', core.exc_site(e), case, 'configuration object builds from the JSON round trip', core.exc_text(e)); return
+    if server_parse_cfg is not server.config:
+        r.count('separate-config-object')
     kser = key.serialize()
     raw = edb.serialize()
     try:
@@ -95,7 +103,7 @@ def run_case(r, seed, name, label, cfg, profile, kwlen, relation, cache=None):
     except Exception as e:
         bad('key-deserialize-raises', '%s:%s' % (core.exc_site(e), type(e).__name__), case, 'key reloads', core.exc_text(e)); return
     try:
-        edb2 = L.SSEEncryptedDatabase.deserialize(raw, server.config)
+        edb2 = L.SSEEncryptedDatabase.deserialize(raw, server_parse_cfg)
         r.count('edb-roundtrip')
         if not (edb2 == edb):
             bad('roundtrip-neq', 'edb', case, 'deserialize(serialize(edb)) == edb', 'differs')
@@ -114,7 +122,7 @@ def run_case(r, seed, name, label, cfg, profile, kwlen, relation, cache=None):
         try:
             tk = client2.TokenGen(key2, w)
             tser = tk.serialize()
-            tk2 = L.SSEToken.deserialize(tser, server.config)
+            tk2 = L.SSEToken.deserialize(tser, server_parse_cfg)
             r.count('token-roundtrip')
             if not (tk2 == tk):
                 bad('roundtrip-neq', 'token', c, 'deserialize(serialize(token)) == token', 'differs')
